@@ -359,14 +359,16 @@ func (u *Unit) selectEscape(st *State, fr *Frame, x *ssa.Select, chans []Term) {
 		}
 		u.Fun("gh_ctx_done", []Sort{SV}, SV)
 		want := App("gh_ctx_done", SV, cv.T)
-		var alts []Term
+		// a nil context has no Done channel to wait for (optional escapes such as the
+		// remote side's context are passed as nil when there is none)
+		alts := []Term{Eq(cv.T, NilV)}
 		for j, c := range chans {
 			if x.States[j].Dir == types.RecvOnly {
 				alts = append(alts, Eq(c, want))
 			}
 		}
 		ord := u.siteOrdinal(x, "escape")
-		u.Prove(st, u.obligName("escape", fmt.Sprintf("select#%d", ord)), "escape", u.tagsOr(cl.Tags), posOf(x), "blocking select has a case receiving from ("+cl.Text+").Done()", Or(alts...), nil)
+		u.Prove(st, u.obligName("escape", fmt.Sprintf("select#%d.%d", ord, i)), "escape", u.tagsOr(cl.Tags), posOf(x), "blocking select has a case receiving from ("+cl.Text+").Done()", Or(alts...), nil)
 	}
 }
 
